@@ -227,6 +227,9 @@ int vp_case(Choice& c, Report& rep) {
   double e_fec = 0, e_plc = 0, e_fec_ref = 0; int fec_frames = 0; double e_fec_all = 0, e_fec_ref_all = 0; int fec_all = 0;
   int first_loss = -1, resumed_at = -1; int run = 0, longest_run = 0; int run_start = -1;
   double preloss_rms = 0, preloss_peak = 0;
+  // quietest 100 ms block of the loss-free output so far: the decoder's concealment deliberately settles at its background-noise
+  // estimate, so "falls well below the pre-loss level" only says something when the pre-loss level stood clear of that background
+  double bg_rms = 1e9; int bg_blocks = 0;
   bool deferred = false;
   bool nontriv = false; uint64_t fp = mix(g.Fs, mix(g.ch, mix(g.mode, mix(g.d, pattern))));
   for (int i = 0; i < N; i++) {
@@ -259,6 +262,7 @@ int vp_case(Choice& c, Report& rep) {
       int from = std::max(0, i * fs - w100);
       preloss_rms = am_rms(yl.data() + (size_t)from * g.ch, (i * fs - from) * g.ch, 1);
       preloss_peak = am_peak(yl.data() + (size_t)from * g.ch, (i * fs - from) * g.ch, 1);
+      for (; (bg_blocks + 1) * w100 <= i * fs; bg_blocks++) bg_rms = std::min(bg_rms, am_rms(yc.data() + (size_t)bg_blocks * w100 * g.ch, w100 * g.ch, 1));
       if (first_loss < 0) first_loss = i;
     }
     run++; if (run > longest_run) longest_run = run;
@@ -350,7 +354,7 @@ int vp_case(Choice& c, Report& rep) {
       }
     }
     // decay under sustained loss
-    if ((run * (long)fs) >= g.Fs && celt_only && g.family == sig::SPEECHLIKE && !voiced_cont && preloss_rms > 1e-3) {
+    if ((run * (long)fs) >= g.Fs && celt_only && g.family == sig::SPEECHLIKE && !voiced_cont && preloss_rms > 1e-3 && preloss_rms > 4.0 * bg_rms) {
       double r = am_rms(ol, fs * g.ch, 1);
       { char cb[200]; snprintf(cb, sizeof cb, "%s/Fs%d/ch%d/run%d/sig%d/pre%.4f/celt%d", cls, g.Fs, g.ch, run, g.family, preloss_rms, celt_only); calib_log("decay_ratio", r / preloss_rms, cb); }
       VP_REQUIRE(r <= DECAY_FRACTION * preloss_rms, "c09:no-decay", "after %.2f s of sustained loss the concealment RMS is %.4f, pre-loss RMS %.4f (%s)", run * (double)fs / g.Fs, r, preloss_rms, celt_only ? "MDCT only" : "all speech frames active");
@@ -384,10 +388,20 @@ int vp_case(Choice& c, Report& rep) {
     // (absolute, calibrated) 500-700 ms after reception resumed
     {
       int a = r0 + g.Fs / 2, b = r0 + g.Fs * 7 / 10;
-      double es = 0, en = 0;
-      if (b <= total) for (int k = a * g.ch; k < b * g.ch; k++) { double sg = yc[k], d1 = yl[k] - yc[k]; es += sg * sg; en += d1 * d1; }
-      if (b <= total && es > 1e-6 * (b - a)) {
+      double es = 0, en = 0, enr = 0;
+      if (b <= total) for (int k = a * g.ch; k < b * g.ch; k++) { double sg = yc[k], d1 = yl[k] - yc[k], d2 = yr[k] - yc[k]; es += sg * sg; en += d1 * d1; enr += d2 * d2; }
+      // a frame of at most one byte inside a received packet (the encoder's "speech layer busted its budget, let the decoder conceal"
+      // signal, or DTX) is concealed by both twins from their own concealment state (random seeds, comfort-noise memory), which
+      // legitimately differs after losses: such a tail says nothing about re-convergence (seed 34: error exactly zero around one such frame)
+      bool enc_dropped = false;
+      for (int i = last_lost + 1; i < N && i * fs < b; i++) {
+        rfc::Parsed q = rfc::parse(pk[i].data(), (int)pk[i].size(), false);
+        for (int f = 0; f < q.count; f++) if (q.size[f] <= 1) enc_dropped = true;
+      }
+      if (enc_dropped) rep.label("tail-has-encoder-dropped-frame");
+      if (b <= total && es > 1e-6 * (b - a) && !enc_dropped) {
         double snr = 10 * std::log10((es + 1e-20) / (en + 1e-20));
+        rep.note("reconvergence window 500-700 ms: signal rms %.5f, tree %.1f dB, frozen %.1f dB", std::sqrt(es / ((b - a) * g.ch)), snr, 10 * std::log10((es + 1e-20) / (enr + 1e-20)));
         { char cb[200]; snprintf(cb, sizeof cb, "%s/Fs%d/ch%d/br%d/run%d/fam%d/sig%d", cls, g.Fs, g.ch, g.bitrate, longest_run, family, g.family); calib_log("reconv_snr", snr, cb); }
         bool aperiodic = (g.family == sig::SPEECHLIKE && !voiced_cont) || g.family == sig::NOISE;
         if (celt_only) { VP_REQUIRE(snr >= RECONV_SNR_CELT_DB, "c09:no-reconvergence", "MDCT-only stream: 500-700 ms after reception resumed the lossy decoder is %.1f dB from the loss-free twin (longest loss %d packets)", snr, longest_run); rep.label("reconvergence-checked"); }
